@@ -48,12 +48,13 @@
    J9  a parameter token that is not esmtp-keyword ["=" esmtp-value] with a
        known keyword is a definite defect (unknown keyword)   -> Invalid.
        This includes keywords spelt with U+017F / U+0131 ("ſIZE=1"): they are
-       not esmtp-keywords.  go-smtp upper-cases with Unicode rules and ACCEPTS
-       them (confirmed against the Go code) - reported as a finding; see
-       [fold_trap].
+       not esmtp-keywords.  (go-smtp used to upper-case keywords with Unicode
+       rules and accepted them - former finding C11-unicode-fold, repaired;
+       [fold_trap] marks such lines.)
    J10 SMTPUTF8=x / REQUIRETLS=x (a value on a parameter that has none) is a
-       value outside its grammar -> Invalid.  go-smtp ignores the value and
-       accepts (finding, see [flag_with_value]).
+       value outside its grammar -> Invalid.  (go-smtp used to ignore the
+       value - former finding C11-flag-value, repaired; [flag_with_value]
+       marks such lines.)
    J11 SIZE: 1*20DIGIT.  More than 20 digits (leading zeros), a value >= 2^63
        (not representable), a value above the configured limit (552 is a
        legitimate answer)                                     -> Unspecified
@@ -728,7 +729,7 @@ Definition classify_mail (cfg : config) (arg : bytes) : verdict3 mail_opts :=
 Definition classify_rcpt (cfg : config) (arg : bytes) : verdict3 rcpt_opts :=
   classify_gen false "TO:" (r_rcpt_param cfg) rparam_apply ro_zero arg.
 
-(* ---------- the two accepted deviations (findings) ---------- *)
+(* ---------- the inputs of the two former findings (case tags only) ---------- *)
 
 (* the argument contains U+017F (long s) or U+0131 (dotless i), which Go's
    strings.ToUpper maps to ASCII 'S' / 'I' *)
